@@ -7,15 +7,56 @@ call to one of the repository's real drivers, chosen per case:
          repository's own test MockPersistDriver does
 
 The persistence API caches one driver per thread for the life of the process, hence the switch.
+
+The switch can also hold back ONE call of the persistence layer the way a networked driver does (`arm`): the next
+`get_samples_by_timestamp` / `remove_samples` call is suspended either before it executes on the store (request on the
+wire) or after it has executed (reply on the wire) until `release()`; meanwhile other operations run to completion.
 """
+import asyncio
+
 from qtoggleserver.persist import BaseDriver
 
 BACKENDS = ('redis', 'mongo', 'json')
 
 
+class Gate:
+    """Suspension of one persistence call."""
+
+    def __init__(self, kind, mode):
+        self.kind = kind            # 'byts' | 'remove'
+        self.mode = mode            # 'b' = hold before executing, 'a' = hold the reply
+        self.reached = False
+        self.event = asyncio.Event()
+
+
 class SwitchDriver(BaseDriver):
     current = None          # the real driver all calls go to
     instance = None
+    gate = None             # armed Gate, taken by the first matching call
+
+    @classmethod
+    def arm(cls, kind, mode):
+        cls.gate = Gate(kind, mode)
+        return cls.gate
+
+    @classmethod
+    def disarm(cls):
+        cls.gate = None
+
+    @classmethod
+    async def _gated(cls, kind, call):
+        g = cls.gate
+        if g is None or g.kind != kind:
+            return await call()
+        cls.gate = None             # later calls are not delayed
+        if g.mode == 'b':
+            g.reached = True        # suspended with the request not yet executed on the store
+            await g.event.wait()
+            return await call()
+        res = await call()
+        g.reached = True            # suspended with the reply computed
+        await g.event.wait()
+        return res
 
     def __init__(self, **kwargs):
         SwitchDriver.instance = self
@@ -46,13 +87,17 @@ class SwitchDriver(BaseDriver):
                                                              sort_desc)
 
     async def get_samples_by_timestamp(self, collection, obj_id, timestamps):
-        return await SwitchDriver.current.get_samples_by_timestamp(collection, obj_id, timestamps)
+        async def call():
+            return list(await SwitchDriver.current.get_samples_by_timestamp(collection, obj_id, timestamps))
+        return await SwitchDriver._gated('byts', call)
 
     async def save_sample(self, collection, obj_id, timestamp, value):
         return await SwitchDriver.current.save_sample(collection, obj_id, timestamp, value)
 
     async def remove_samples(self, collection, obj_ids, from_timestamp, to_timestamp):
-        return await SwitchDriver.current.remove_samples(collection, obj_ids, from_timestamp, to_timestamp)
+        async def call():
+            return await SwitchDriver.current.remove_samples(collection, obj_ids, from_timestamp, to_timestamp)
+        return await SwitchDriver._gated('remove', call)
 
     def is_samples_supported(self):
         return True
